@@ -342,8 +342,10 @@ def subToEComp (sub : Sub) : Except String EComp :=
     match sub.otherLoad, stagesOf sub with
     | some (c, _), [] => if sub.componentType = tOtherLoad then .ok (.load c) else .error "single component of unexpected type"
     | none, [s] =>
-      -- a PTI/PTO stays a PTI/PTO also with a single member (repo 1ca4f7b; as found the reader refused it)
+      -- a PTI/PTO stays a PTI/PTO, a propulsion drive a serial system, also with a single member (repo 1ca4f7b, 3b499f2; as
+      -- found the reader refused the first and read the second as a plain machine it could not write again)
       if sub.componentType = tPtiPto then .ok (.serial true sub.name sub.rated sub.speed [s])
+      else if sub.componentType = tDrive then .ok (.serial false sub.name sub.rated sub.speed [s])
       else match s with
         | .machine m => if sub.componentType = tGenerator then .ok (.generator m) else .error "single machine: not representable as a train"
         | _ => .error "subsystem not understood"
